@@ -1,3 +1,4 @@
 pub mod authz;
 pub mod batched;
 pub mod hierarchy;
+pub mod policyset;
